@@ -182,6 +182,20 @@ def hostile_packets(rng, pk, bits, ch):
     hand = handmade(rng, bits, ch)
     out.append(("hand-made packet (%s) replaces packet %d" % (hand[0], i), rep(hand[1])))
     out.append(("hand-made packet (%s) appended" % hand[0], pk + [hand[1]]))
+    # 4b. a field of a compressed element's parameter block set to an extreme (first element of a packet that starts with a compressed element)
+    for _ in range(2):
+        j = rng.randrange(len(pk))
+        q = bytearray(pk[j])
+        if len(q) > 12 and not getbits(q, 22, 1):
+            off = 23 + (32 if getbits(q, 19, 1) else 0)
+            name, o, w, vals = rng.choice([("mixBits", 0, 8, [0, 1, 3, 31, 32, 255]), ("mixRes", 8, 8, [1, 2, 4, 127, 128, 255]), ("mode", 16, 4, [1, 2, 15]),
+                                           ("denShift", 20, 4, [0, 1, 8, 15]), ("pbFactor", 24, 3, [0, 1, 7]), ("numActive", 27, 5, [0, 1, 2, 3, 4, 5, 8, 9, 16, 30, 31]),
+                                           ("bytesShifted", 20 - off, 2, [0, 1, 2]), ("partial", 19 - off, 1, [0, 1])])
+            v = rng.choice(vals)
+            for t in range(w):
+                b = off + o + t
+                q[b >> 3] = (q[b >> 3] & ~(0x80 >> (b & 7))) | (((v >> (w - 1 - t)) & 1) << (7 - (b & 7)))
+            out.append(("%s of packet %d set to %d" % (name, j, v), pk[:j] + [bytes(q)] + pk[j + 1:]))
     # 5. random tail
     q = bytearray(p[:rng.randrange(1, min(len(p), 40) + 1)]) + bytearray(rng.getrandbits(8) for _ in range(rng.choice([1, 5, 60, 300])))
     out.append(("packet %d: random bytes from offset %d" % (i, len(q)), rep(q)))
